@@ -113,22 +113,24 @@ def _arg(st):
     return st["a"] + ("(" + ",".join(f"{k}={json.dumps(a[k], separators=(',', ':'))}" for k in sorted(a)) + ")" if a else "")
 
 
-def _select(behs, rnd, n_emit, n_trans):
+def _select(behs, rnd, n_emit, n_trans, near_len=3):
     """From a tour (one line per transition): one shortest behaviour per state (their maximal ones), every
-    emission transition out of a state at most 2 edits away (deterministic), plus seeded samples of the other
-    emission transitions and of the remaining transitions."""
+    emission transition out of a state at most near_len - 1 edits away (deterministic), plus seeded samples of the
+    other emission transitions and of the remaining transitions (n_trans = None: all of them, deterministic)."""
     per_state, emits_near, emits, others = {}, [], [], []
     for b in behs:
         k = json.dumps(b["key"], sort_keys=True)
         beh = {"steps": b["steps"]}
         if b["steps"][-1]["t"] == "emit":
-            (emits_near if len(b["steps"]) <= 3 else emits).append(beh)
+            (emits_near if len(b["steps"]) <= near_len else emits).append(beh)
         elif k not in per_state:
             per_state[k] = beh
         else:
             others.append(beh)
     tree = vf.maximal_behaviours(list(per_state.values()))
     rnd.shuffle(emits)
+    if n_trans is None:
+        return tree, emits_near + others, emits[:n_emit], [], len(per_state)
     rnd.shuffle(others)
     return tree, emits_near, emits[:n_emit], others[:n_trans], len(per_state)
 
@@ -184,7 +186,10 @@ def run(chk, replay=None):
         if replay:
             break
         big = t == "Feats5"
-        tree, near, emits, others, nstates = _select(tour, rnd, n_emit=60 if quick else 1000, n_trans=60 if quick else 2000)
+        if t == "FormV":   # the value-class model: every transition, every emission up to 3 edits away (stable signatures)
+            tree, near, emits, others, nstates = _select(tour, rnd, n_emit=60 if quick else 1000, n_trans=None, near_len=4)
+        else:
+            tree, near, emits, others, nstates = _select(tour, rnd, n_emit=60 if quick else 1000, n_trans=60 if quick else 2000)
         if big:   # the product models are for TLC; replay a seeded sample of their state-covering behaviours
             rnd.shuffle(tree)
             tree = tree[:2000]
@@ -311,15 +316,16 @@ def run(chk, replay=None):
         vc = tuple(classes.get((v["case"], v["step"]), []))
         # which input class fails: the value classes present, else (ordinary strings) the alphabet
         key = (v["prop"], v["e"] if v["prop"] == "Advertised" else "", vc, "" if vc else b["alpha"])
-        cand = (len(prefix), prefix)
+        cand = (len(prefix), prefix, b["alpha"])
         if key not in best or cand < best[key][0]:
             best[key] = (cand, v, idx)
     chk.cov["violating_executions"] = len({v["case"] for v in s["viol"]
                                            if not (v["prop"] == "Change" and behs[int(v["case"][1:]) - 1]["alpha"] == "delim")})
     chk.cov["change_clause_not_judged_under_delimiter_alphabet"] = not_judged
-    # a failing class set that contains another failing one (same clause) adds nothing
+    # a failing class set that strictly contains another failing one (whatever the clause) adds nothing
+    failing_sets = {k[2] for k in best if k[2]}
     for key in list(best):
-        if any(k2 != key and k2[:2] == key[:2] and k2[2] and set(k2[2]) < set(key[2]) for k2 in best):
+        if any(set(fs) < set(key[2]) for fs in failing_sets):
             del best[key]
     for key in sorted(best, key=lambda k: (len(k[2]), best[k][0], k)):
         cand, v, idx = best[key]
